@@ -285,3 +285,111 @@ pub fn walk<S: Storage>(storage: &S, starts: impl Iterator<Item = Location>) -> 
 pub fn addr(id: CmdId, mc: u64) -> Address {
     Address { id, max_cut: MaxCut::new(mc) }
 }
+
+// ---------------------------------------------------------------------------------------------
+// Fault injection: a memory-backed IoManager whose `Write::commit` can be armed to fail once.
+
+use aranya_runtime::storage::linear::{io as lio, testing as ltest, LinearStorageProvider};
+
+/// Shared countdown: `n > 0` means "the n-th backend commit from now fails once"; 0 = disarmed.
+#[derive(Clone, Default)]
+pub struct CommitFault(pub Rc<std::cell::Cell<u32>>);
+
+impl CommitFault {
+    pub fn arm(&self, nth: u32) {
+        self.0.set(nth);
+    }
+    pub fn armed(&self) -> bool {
+        self.0.get() > 0
+    }
+    fn tick(&self) -> bool {
+        match self.0.get() {
+            0 => false,
+            1 => {
+                self.0.set(0);
+                true
+            }
+            n => {
+                self.0.set(n - 1);
+                false
+            }
+        }
+    }
+}
+
+#[derive(Default)]
+pub struct FaultyManager {
+    inner: ltest::Manager,
+    pub fault: CommitFault,
+}
+
+pub struct FaultyWriter {
+    inner: ltest::Writer,
+    fault: CommitFault,
+}
+
+impl lio::IoManager for FaultyManager {
+    type Writer = FaultyWriter;
+    fn create(&mut self, id: GraphId) -> Result<Self::Writer, StorageError> {
+        Ok(FaultyWriter { inner: self.inner.create(id)?, fault: self.fault.clone() })
+    }
+    fn open(&mut self, id: GraphId) -> Result<Option<Self::Writer>, StorageError> {
+        Ok(self.inner.open(id)?.map(|w| FaultyWriter { inner: w, fault: self.fault.clone() }))
+    }
+    fn remove(&mut self, id: GraphId) -> Result<(), StorageError> {
+        self.inner.remove(id)
+    }
+    fn list(&mut self) -> Result<impl Iterator<Item = Result<GraphId, StorageError>>, StorageError> {
+        self.inner.list()
+    }
+}
+
+impl lio::Write for FaultyWriter {
+    type ReadOnly = <ltest::Writer as lio::Write>::ReadOnly;
+    fn readonly(&self) -> Self::ReadOnly {
+        self.inner.readonly()
+    }
+    fn heads(&self) -> Result<aranya_runtime::storage::HeadSet, StorageError> {
+        self.inner.heads()
+    }
+    fn heads_offset(&self) -> Result<aranya_runtime::storage::HeadSetOffset, StorageError> {
+        self.inner.heads_offset()
+    }
+    fn fact_cache(&self) -> Result<lio::FactCacheOffset, StorageError> {
+        self.inner.fact_cache()
+    }
+    fn append<F, T>(&mut self, builder: F) -> Result<T, StorageError>
+    where
+        F: FnOnce(u64) -> T,
+        T: serde::Serialize,
+    {
+        self.inner.append(builder)
+    }
+    fn commit(&mut self, heads: &aranya_runtime::storage::HeadSet, fact_cache: lio::FactCacheOffset) -> Result<(), StorageError> {
+        if self.fault.tick() {
+            return Err(StorageError::IoError);
+        }
+        self.inner.commit(heads, fact_cache)
+    }
+}
+
+pub type FaultProvider = LinearStorageProvider<FaultyManager>;
+pub type FaultReplica = Replica<FaultProvider>;
+
+impl FaultReplica {
+    /// Memory-backed replica whose backend commit can be armed to fail (handle kept in `guard`).
+    pub fn new_faulty(graph: GraphId) -> Self {
+        let fm = FaultyManager::default();
+        let fault = fm.fault.clone();
+        let mut r = Replica::new(LinearStorageProvider::new(fm), graph);
+        r.guard = Some(Box::new(fault));
+        r
+    }
+}
+
+impl<SP: StorageProvider> Replica<SP> {
+    /// The commit-fault handle, if this replica was built with `new_faulty`.
+    pub fn commit_fault(&self) -> Option<CommitFault> {
+        self.guard.as_ref().and_then(|g| g.downcast_ref::<CommitFault>()).cloned()
+    }
+}
